@@ -26,24 +26,24 @@ import (
 )
 
 type Cfg struct {
-	N        int      `json:"n"`
-	Native   bool     `json:"native"`
-	Keys     []string `json:"keys"` // "dbi/key"
-	Vals     []string `json:"vals"`
-	TS0      bool     `json:"ts0"`     // native: allow application writes with timestamp 0 on absent keys
-	NoTick   bool     `json:"notick"`  // allow events at the same clock value as the previous event of another instance
-	Padding  bool     `json:"padding"` // header_extra_padding_block
-	Cleaner  bool     `json:"cleaner"` // cleaner events (C05b)
-	Restart  bool     `json:"restart"`
-	KeepNS   int64    `json:"keep_ns"`
-	StaleNS  int64    `json:"stale_ns"`
-	Silent   int      `json:"silent"` // instance index that stops after its first upload (-1 none)
-	IntKey   bool     `json:"intkey"`
-	MaxSends int      `json:"max_sends"` // per instance (0 = unlimited)
-	NewestOnly bool   `json:"newest_only"` // merges only of the newest snapshot of another instance
-	OwnKeys  bool     `json:"own_keys"`    // instance i writes only Keys[i]
-	Prefix   []string `json:"prefix"`      // scripted events applied before the search starts
-	NoDelete bool     `json:"no_delete"`
+	N          int      `json:"n"`
+	Native     bool     `json:"native"`
+	Keys       []string `json:"keys"` // "dbi/key"
+	Vals       []string `json:"vals"`
+	TS0        bool     `json:"ts0"`     // native: allow application writes with timestamp 0 on absent keys
+	NoTick     bool     `json:"notick"`  // allow events at the same clock value as the previous event of another instance
+	Padding    bool     `json:"padding"` // header_extra_padding_block
+	Cleaner    bool     `json:"cleaner"` // cleaner events (C05b)
+	Restart    bool     `json:"restart"`
+	KeepNS     int64    `json:"keep_ns"`
+	StaleNS    int64    `json:"stale_ns"`
+	Silent     int      `json:"silent"` // instance index that stops after its first upload (-1 none)
+	IntKey     bool     `json:"intkey"`
+	MaxSends   int      `json:"max_sends"`   // per instance (0 = unlimited)
+	NewestOnly bool     `json:"newest_only"` // merges only of the newest snapshot of another instance
+	OwnKeys    bool     `json:"own_keys"`    // instance i writes only Keys[i]
+	Prefix     []string `json:"prefix"`      // scripted events applied before the search starts
+	NoDelete   bool     `json:"no_delete"`
 }
 
 const base = uint64(1_000_000_000_000_000_000) // logical epoch, far from 0/1 special values
@@ -582,24 +582,43 @@ func (f *Fleet) cleanerState(i int) string {
 			parts = append(parts, fmt.Sprintf("%s:%d", f.I[j].Name, t.UnixNano()-int64(base)))
 		}
 	}
+	// the real bookkeeping of the syncer and its cleaner (not a harness mirror of it), rendered relative
+	// to the bucket listing and the clock
 	var runs []string
-	if i < len(f.lastLoaded) {
-		names := f.B.Names()
-		var ll []string
-		for src, n := range f.lastLoaded[i] {
-			ll = append(ll, fmt.Sprintf("%s=%d", src, sort.SearchStrings(names, n)))
-		}
-		sort.Strings(ll)
-		runs = append(runs, "loaded:"+strings.Join(ll, ","))
-	}
-	if i < len(f.firstSeen) {
-		names := f.B.Names()
+	names := f.B.Names()
+	var ll []string
+	for src, t := range f.I[i].S.VerifLastByInstance() {
+		idx := -1
 		for bi, n := range names {
-			if t, ok := f.firstSeen[i][n]; ok {
-				runs = append(runs, fmt.Sprintf("%d:%d", bi, (f.Clock-t)/step))
+			if ni, err := snapshot.ParseName(n); err == nil && ni.InstanceID == src && ni.Timestamp.Equal(t) {
+				idx = bi
 			}
 		}
+		ll = append(ll, fmt.Sprintf("%s=%d", src, idx))
 	}
+	sort.Strings(ll)
+	runs = append(runs, "loaded:"+strings.Join(ll, ","))
+	fs := w.VerifFirstSeen()
+	for bi, n := range names {
+		if t, ok := fs[n]; ok {
+			runs = append(runs, fmt.Sprintf("%d:%d", bi, (int64(f.Clock)-t.UnixNano())/int64(step)))
+		}
+	}
+	for n := range fs {
+		if sort.SearchStrings(names, n) == len(names) || names[sort.SearchStrings(names, n)] != n {
+			in := "?"
+			if ni, err := snapshot.ParseName(n); err == nil {
+				in = ni.InstanceID
+			}
+			runs = append(runs, "gone:"+in) // remembered although no longer listed (forgotten at the next run)
+		}
+	}
+	var ig []string
+	for n := range w.VerifIgnored() {
+		ig = append(ig, n)
+	}
+	sort.Strings(ig)
+	runs = append(runs, "ign:"+strings.Join(ig, ","))
 	return strings.Join(parts, ",") + "/" + strings.Join(runs, ",")
 }
 
